@@ -185,7 +185,7 @@ def run_model(ctx, histories, templates, cfg):
     lines = []
     for h in histories:
         lines += G.model_lines([[[]]] + h, templates, cfg)      # the preamble call holds no store block
-    out = ctx.pmodel("store", "\n".join(lines) + "\n")
+    out = ctx.pmodel("store", "\n".join(lines) + "\n", timeout=240)
     res, cur, obs = [], None, None
     nruns = [len(h) + 1 for h in histories]
     hi, cnt = 0, 0
